@@ -437,6 +437,8 @@ def replay_file(path):
             elif name == 'EnvComplete':
                 run.complete(params[0], params[1][0], params[1][1])
             elif name in ('EnvRpc', 'EnvBcast'):
+                if len(params) == 1:           # FRpc(<<intent, text>>)
+                    params = params[0]
                 run.deliver('rpc' if name == 'EnvRpc' else 'bcast', params[0], params[1])
             elif name == 'EnvSave':
                 run.snapshot()
